@@ -925,6 +925,10 @@ impl<'a, R: Read, E: Encryption> Builder<'a, R, E> {
             } else {
                 self.to_writer(rng, &mut enc)?;
             }
+
+            // Flush the final partial quantum and line explicitly: `Drop` would swallow sink errors.
+            enc.finish()?;
+            line_wrapper.finish()?;
         }
 
         // write footer
